@@ -386,8 +386,16 @@ def gen_expr(draw, sc, t, depth, allow_call=True, pure_only=False):
         fs = callable_funcs(sc, t, True)
         f = draw(st.sampled_from(fs))
         args = []
-        for pt, _ in f["params"]:
+        for ai, (pt, _) in enumerate(f["params"]):
             at = pt
+            if f.get("rec") and ai == 0:
+                # recursion depth is bounded by construction: small non-negative literal (or a loop counter)
+                nn = [x for x in sc.visible("int") if x.get("nonneg")]
+                if nn and draw(st.booleans()):
+                    args.append({"k": "var", "t": "int", "name": draw(st.sampled_from(nn))["name"]})
+                else:
+                    args.append(lit("int", draw(st.integers(0, 6))))
+                continue
             if pt == "long" and draw(st.booleans()):
                 at = "int"  # int widens to long in calls
             args.append(draw(gen_expr(sc, at, min(d, 1), False, False)))
@@ -661,7 +669,7 @@ def gen_function(draw, funcs, name, kind):
         params.insert(0, ["int", n])
         sc.vars.insert(0, {"name": n, "t": "int", "ro": True, "nonneg": False})
         ret = draw(st.sampled_from(["int", "long", "float", "string"]))
-        me = {"name": name, "params": params, "ret": ret, "pure": True, "body": []}
+        me = {"name": name, "params": params, "ret": ret, "pure": True, "body": [], "rec": True}
         base = draw(gen_expr(sc, ret, 2))
         rec_args = [{"k": "bin", "t": "int", "op": "-", "l": {"k": "var", "t": "int", "name": n}, "r": lit("int", 1)}]
         for pt, pn in params[1:]:
